@@ -16,7 +16,9 @@ MANIFEST = {
             "FFCDHKey, ECDHKey and GetKey; pack x equals an independent encoder that interprets declarative field tables transcribed from MS-GKDI 2.2.1-2.2.4; GetKey.pack equals the NDR64 "
             "reference encoding of the IDL for every SD length and optional root key id; unpack_response of the NDR64 reference reply returns GroupKeyEnvelope.unpack of the payload for every "
             "length; hresult != 0 is ValueError on every input; auth padding is stripped. Tie to the source: padding/guard kernels and byte constants regenerated from the source, "
-            "everything else by differential correspondence (model and independent spec both run against the implementation).",
+            "everything else by differential correspondence (model and independent spec both run against the implementation). Additionally, for ALL field values (not only "
+            "well-formed ones) each packer succeeds exactly when the independent encoder does, with equal bytes (layout tbl x = res_opt (pack x); only side condition: a UUID is 16 bytes), "
+            "and every decoder on arbitrary bytes returns a value or ValueError (never an internal error; the UTF-16 decoder terminates).",
     "note": "Slice bounds inside subscripts and the pad element of GetKey.pack are not reachable by the kernel selectors; they are hand-written in the model and tied by correspondence on every residue mod 8.",
     "technique": "Coq proof (fixed-layout codec round trips, table-driven independent encoder, NDR64 reference) + differential correspondence",
 }
